@@ -58,7 +58,7 @@ MECH = {
     'halfopen': 'resolve:half-open-range',
     'where_no_loop': 'resolve:where-body-index-unbound',
     'where_shifted': 'resolve:where-mask-and-body-ranges-differ',
-    'where_multi': 'resolve:where-elsewhere',
+    'where_multi': 'resolve:where-masked-elsewhere',
     'section_in_same_range_loop': 'resolve:reuses-enclosing-loop-variable',
     'transformational_intrinsic': 'resolve:array-valued-intrinsic-argument-scalarised',
     'strided_shifted': 'normalize:section-stride-dropped',
@@ -98,8 +98,12 @@ def case_flags(rng, idx):
                  no_bare_lhs=True, neg_strides=f['hostile'] == 'neg_stride_py')
     if f['hostile'] == 'section_call_arg':
         f['calls'] = True
-    f['allow_strided_shifted'] = False
-    f['allow_colon_shifted'] = False
+    # strided / ':' sections on arrays with lower bound != 1 break normalize_array_shape_and_access (known): they
+    # are allowed in a quarter of the fortran cases, which then do not run the normalising variants, so that the
+    # other transformations see them and the normalising ones are not masked everywhere
+    f['shifted_forms'] = profile == 'fortran' and idx % 4 == 1 and not f['hostile']
+    f['allow_strided_shifted'] = f['shifted_forms']
+    f['allow_colon_shifted'] = f['shifted_forms']
     return f
 
 
@@ -431,9 +435,13 @@ def run_case(idx, rng, tier, ctx):
     hostile = hostile_stmt.hostile if hostile_stmt else None
     if profile == 'fortran':
         k = 3 if tier == 'quick' else 4
-        first = rng.choice(['rvn', 'pipe', 'rvn-opts'])
-        rest = [v for v in FVARIANTS if v != first]
+        pool = [v for v in FVARIANTS if not (flags['shifted_forms'] and v in ('nasa', 'pipe'))]
+        first = rng.choice([v for v in ('rvn', 'pipe', 'rvn-opts') if v in pool])
+        rest = [v for v in pool if v != first]
         variants = [first] + rng.sample(rest, k - 1)
+        need = {'strided_shifted': 'nasa', 'colon_shifted': 'nasa', 'section_call_arg': 'pipe'}.get(hostile)
+        if need and need not in variants:
+            variants[-1] = need
     elif profile == 'c':
         variants = ['cpipe']
     else:
